@@ -2,7 +2,7 @@
 import os as _os, sys as _sys
 _sys.path.insert(0, _os.path.dirname(_os.path.dirname(_os.path.abspath(__file__))))
 import itertools, time, traceback, sys, os
-from z3 import (And, Or, Not, Implies, Const, ForAll, Solver, SimpleSolver, Store, unsat, sat, unknown, K, BoolSort, IntSort, set_param)
+from z3 import (And, Or, Not, Implies, Const, ForAll, Solver, SimpleSolver, Store, BoolVal, unsat, sat, unknown, K, BoolSort, IntSort, set_param)
 from pyvc.logic import Ctx, IR_CLASSES, FIRST_CLASS
 from pyvc.classes import ClassTable
 from pyvc.se import SE, St, Unsupported, R, B, I
@@ -58,6 +58,8 @@ def param_alternatives(ctx, h0, name, kind):
     c = ctx
     if kind == 'any':
         v = Const(name, c.Ref); return [(R(v), [h0['alloc'][v]])]
+    if kind.startswith('is:'):
+        v = Const(name, c.Ref); return [(R(v), [h0['alloc'][v], c.isa(v, *kind[3:].split('|'))])]
     if kind.startswith('any!'):
         v = Const(name, c.Ref); return [(R(v), [h0['alloc'][v], Not(c.isa(v, kind[4:]))])]
     if kind == 'none':
@@ -81,21 +83,31 @@ def param_alternatives(ctx, h0, name, kind):
     raise KeyError(kind)
 
 
-def run_function(repo, cls, name, kind, params, spec_module='specs.ir', opts=None):
+SUITES = {
+    'ir': {'module': 'specs.ir', 'spec_class': 'IRSpec', 'functions': 'specs.ir_functions', 'files': {}, 'obligations': 'all'},
+    'compare': {'module': 'specs.compare', 'spec_class': 'CompareSpec', 'functions': 'specs.compare',
+                'files': {'Comparer': 'spydrnet/compare/compare_netlists.py'}, 'obligations': 'posts'},
+}
+
+
+def run_function(repo, cls, name, kind, params, spec_module='specs.ir', opts=None, suite='ir'):
     """Returns dict(function, sha, results=[{name,status,time_s,detail}], paths, exits, error/degraded)"""
     import importlib
     opts = opts or {}
+    SU = SUITES[suite]
     t_start = time.time()
     ctx = Ctx()
     ct = ClassTable(repo=repo)
-    sm = importlib.import_module(spec_module)
+    for c_, f_ in SU['files'].items(): ct.load(c_, f_)
+    irm = importlib.import_module('specs.ir')
     importlib.import_module('specs.ir_loops')
-    spec = sm.IRSpec(ctx, ct)
-    try:
-        from specs.ir_functions import POSITIONAL
-        if (cls, name, kind) in POSITIONAL: ctx.enable_positions()
-    except ImportError:
-        pass
+    sm = importlib.import_module(SU['module'])
+    fm = importlib.import_module(SU['functions'])
+    spec = getattr(sm, SU['spec_class'])(ctx, ct)
+    if (cls, name, kind) in getattr(fm, 'POSITIONAL', set()): ctx.enable_positions()
+    POSTS_ = getattr(sm, 'POSTS', {})
+    sm_posts = sm
+    sm = irm
     fi = ct.find(cls, name, kind)
     if fi is None:
         return {'function': '%s.%s' % (cls, name), 'missing': True, 'results': [], 'degraded': 'function not found in source'}
@@ -110,7 +122,9 @@ def run_function(repo, cls, name, kind, params, spec_module='specs.ir', opts=Non
     spec.h0 = h0
     inv0 = spec.inv.clauses(h0, hyp=True)
     self_ = Const('self', ctx.Ref)
-    base_pc = [g for _, _, g in inv0] + [h0['alloc'][self_], ctx.cls(self_) == ctx.C[cls]]
+    is_ir_self = cls in ctx.C
+    base_pc = [g for _, _, g in inv0] + ([h0['alloc'][self_], ctx.cls(self_) == ctx.C[cls]] if is_ir_self else [])
+    if hasattr(sm_posts, 'extra_pre'): base_pc += sm_posts.extra_pre(ctx, spec, h0)
     alts = [param_alternatives(ctx, h0, p, k) for p, k in params]
     agg = {}      # obligation name -> [status, time, detail]
     budget = {'expensive_failures': 0}
@@ -143,7 +157,7 @@ def run_function(repo, cls, name, kind, params, spec_module='specs.ir', opts=Non
                 st.pc = [g for _, _, g in inv0] + [Not(h0['alloc'][self_]), ctx.cls(self_) == ctx.C[cls], self_ != ctx.null]
                 st.heap['alloc'] = Store(h0['alloc'], self_, True)
                 st.fresh.append(self_)
-            args = [R(self_)]
+            args = [R(self_) if is_ir_self else ('obj', cls)]
             for v, assumptions in combo:
                 args.append(v); st.pc += assumptions
             if not se.sat(st):
@@ -158,7 +172,6 @@ def run_function(repo, cls, name, kind, params, spec_module='specs.ir', opts=Non
                 if stt != 'discharged':
                     stt, dt, why, be = full_discharge(hyps, goal)
                 if stt != 'discharged' and shaky:
-                    from z3 import BoolVal
                     fst, fdt, fwhy, fbe = discharge(ctx, hyps, BoolVal(False), opts.get('timeout_ms', 20000), stages='cheap')
                     if fst == 'discharged': stt, why, be = 'discharged', 'path infeasible', fbe
                     elif stt == 'failed': stt = 'undecided'; why = 'path feasibility undecided; ' + why
@@ -166,15 +179,18 @@ def run_function(repo, cls, name, kind, params, spec_module='specs.ir', opts=Non
             for s, ekind, val in se.outcomes:
                 out['exits'][ekind] = out['exits'].get(ekind, 0) + 1
                 goals = []
-                for prop, cname, g in spec.inv.clauses(s.heap):
-                    goals.append(('%s/%s/exit=%s/%s' % (prop, fi.qual, ekind, cname), g))
-                if ekind not in ('normal', 'ListenerVeto'):
-                    for cname, g in spec.inv.frame(h0, s.heap):
-                        goals.append(('C14/%s/exit=%s/%s' % (fi.qual, ekind, cname), g))
-                if ekind in sm.WELL_TYPED_EXITS:
-                    for cname, g in spec.in_vain(s.heap):
-                        goals.append(('C19/%s/exit=%s/%s' % (fi.qual, ekind, cname), g))
-                post = sm.POSTS.get(fi.qual)
+                if SU['obligations'] == 'all':
+                    for prop, cname, g in spec.inv.clauses(s.heap):
+                        goals.append(('%s/%s/exit=%s/%s' % (prop, fi.qual, ekind, cname), g))
+                    if ekind not in ('normal', 'ListenerVeto'):
+                        for cname, g in spec.inv.frame(h0, s.heap):
+                            goals.append(('C14/%s/exit=%s/%s' % (fi.qual, ekind, cname), g))
+                    if ekind in sm.WELL_TYPED_EXITS:
+                        for cname, g in spec.in_vain(s.heap):
+                            goals.append(('C19/%s/exit=%s/%s' % (fi.qual, ekind, cname), g))
+                elif ekind == 'normal':
+                    goals.append(('REACH/%s/exit=normal/reachable' % fi.qual, BoolVal(True)))
+                post = POSTS_.get(fi.qual)
                 if post is not None:
                     for prop, cname, g in post(ctx, spec, h0, s, ekind, args, val):
                         goals.append(('%s/%s/exit=%s/%s' % (prop, fi.qual, ekind, cname), g))
@@ -192,7 +208,6 @@ def run_function(repo, cls, name, kind, params, spec_module='specs.ir', opts=Non
                     if still:
                         # before anything is reported: is this path feasible at all?  (feasibility checks during execution are
                         # cheap and may have let an infeasible path through)
-                        from z3 import BoolVal
                         fst, fdt, fwhy, fbe = full_discharge(s.pc, BoolVal(False)) if budget['expensive_failures'] < MAX_EXPENSIVE_FAILURES \
                             else discharge(ctx, s.pc, BoolVal(False), opts.get('timeout_ms', 20000), stages='cheap')
                         if fst != 'discharged': budget['expensive_failures'] = max(0, budget['expensive_failures'] - 1)   # a feasible path is not a failure
@@ -221,7 +236,7 @@ def _worker(job):
     sys.setrecursionlimit(20000)
     repo, cls, name, kind, params, opts = job
     try:
-        return run_function(repo, cls, name, kind, params, opts=opts)
+        return run_function(repo, cls, name, kind, params, opts=opts, suite=(opts or {}).get('suite', 'ir'))
     except Exception:
         return {'function': '%s.%s' % (cls, name), 'results': [], 'error': traceback.format_exc()[-1500:]}
 
@@ -266,10 +281,17 @@ if __name__ == '__main__':
     if len(sys.argv) > 1 and sys.argv[1] == '--json':
         c, n, k = sys.argv[2:5]
         opts = json.loads(sys.argv[5]) if len(sys.argv) > 5 else {}
+        import importlib
+        FUNCTIONS = importlib.import_module(SUITES[opts.get('suite', 'ir')]['functions']).FUNCTIONS
         params = [f for f in FUNCTIONS if f[0] == c and f[1] == n and f[2] == k][0][3]
         r = _worker((os.environ.get('VERIF_REPO', '/repo'), c, n, k, params, opts))
         sys.stdout.write('@@JSON@@' + json.dumps(r))
         sys.exit(0)
     sel = sys.argv[1:]
+    suite = 'ir'
+    if sel and sel[0].startswith('--suite='):
+        suite = sel[0].split('=')[1]; sel = sel[1:]
+        import importlib
+        FUNCTIONS = importlib.import_module(SUITES[suite]['functions']).FUNCTIONS
     fns = [f for f in FUNCTIONS if not sel or ('%s.%s' % (f[0], f[1])) in sel or f[0] in sel]
-    run_all(os.environ.get('VERIF_REPO', '/repo'), fns, progress=_print, per_function_timeout=int(os.environ.get('PYVC_FN_TIMEOUT', '300')))
+    run_all(os.environ.get('VERIF_REPO', '/repo'), fns, opts={'suite': suite}, progress=_print, per_function_timeout=int(os.environ.get('PYVC_FN_TIMEOUT', '300')))
